@@ -3,8 +3,21 @@ call a render makes out of generated code funnels through callout(i): the
 engine decides which dynamic invocation raises."""
 
 
-class Boom(Exception):
-    pass
+class Boom(TypeError, KeyError, ValueError, AttributeError, RuntimeError):
+    """The injected exception.  It is also an instance of the builtin exception classes library code
+    likes to catch around small operations, so a handler that is too wide (a try/except TypeError that
+    grew to cover a user call) swallows it and is noticed."""
+
+    def __str__(self):
+        return str(self.args[0]) if self.args else ""
+
+
+class BoomBase(BaseException):
+    """injected for the 'not an Exception' placements (SystemExit / KeyboardInterrupt-like)"""
+
+    def __init__(self, msg, code=7):
+        BaseException.__init__(self, msg, code)
+        self.code = code
 
 
 class State:
@@ -13,7 +26,8 @@ class State:
 
     def reset(self, fault):
         self.counts = {}
-        self.fault = tuple(fault) if fault else None  # (callout id, occurrence) or None
+        self.fault = tuple(fault[:2]) if fault else None  # (callout id, occurrence) or None
+        self.base = bool(fault and len(fault) > 2 and fault[2] == "base")
         self.raised = None
         self.order = []  # dynamic order of call-outs (id, occurrence)
         self.total = 0
@@ -29,7 +43,7 @@ def callout(i):
     st.total += 1
     st.order.append((i, n))
     if st.fault is not None and st.fault == (i, n):
-        st.raised = Boom("boom(%s,%d)" % (i, n))
+        st.raised = (BoomBase if st.base else Boom)("boom(%s,%d)" % (i, n))
         raise st.raised
 
 
